@@ -85,7 +85,13 @@ def accumulation_sites(body, loop):
         for a in t["args"][1:]:
             deps |= dep_closure(body, a)
         if ("call", nxt) in deps:
-            sites.append((bb, t, origin_keys(body, t["args"][0])))
+            # test-and-set (`if !seen.insert(id) { continue }`): the insertion's result feeds a branch
+            tested = False
+            if m == "insert" and t.get("dest") and not t["dest"]["p"]:
+                for b2 in body.blocks:
+                    if b2.idx in body.reach and b2.term["t"] == "switch" and ("call", bb) in dep_closure(body, b2.term["discr"]):
+                        tested = True
+            sites.append((bb, t, origin_keys(body, t["args"][0]), tested))
     return sites
 
 
@@ -108,9 +114,12 @@ def r1_dedup(ctx):
                 ctx.note("%s: loop over rule.components without an accumulation site" % short(root))
                 continue
             memory = set()
-            for (_, _, recv) in sites:
+            for (_, _, recv, _tested) in sites:
                 memory |= recv
-            for bb, t, recv in sites:
+            for bb, t, recv, tested in sites:
+                if tested:
+                    ctx.ok("%s/%s-test-and-set" % (short(root), callee_decl(t).rsplit("::", 1)[-1]), site_of(body, bb), "set insertion whose result guards the accumulation")
+                    continue
                 ok = False
                 why = []
                 for (sbb, cond, outs) in required_outcomes(F, body, bb):
